@@ -229,3 +229,16 @@ def run(ctx):
            and any(k.arg == 'selector' for k in c.keywords) for c in repl)
   ctx.check(ok, 'C11.method', construct(fm), 'methods re-homed under their class are flagged is_method (the flag the addressing guard reads)',
             're-homed methods are no longer flagged is_method: a method becomes addressable without its class name', fm.loc())
+
+  # ---- C11.hooks-atomic: bindings returned by finalize hooks obey "a rejected binding leaves the configuration as it was"
+  from .c12 import hooks_atomic
+  hooks_atomic(ctx, 'C11.hooks-atomic')
+
+  # ---- C11.signature: the signature inspected is that of the fully unwrapped callable
+  unwrap_loops = [n for n in walk_local(mf.node) if isinstance(n, ast.While) and u(n.test).replace(' ', '') == "hasattr(fn,'__wrapped__')"
+                  and any(isinstance(b, ast.Assign) and u(b.targets[0]) == 'fn' and u(b.value) == 'fn.__wrapped__' for b in n.body)]
+  full_unwrap = [c for c in walk_local(mf.node) if isinstance(c, ast.Call) and u(c.func) == 'inspect.unwrap' and not c.keywords and len(c.args) == 1]
+  ctx.check(bool(unwrap_loops) or bool(full_unwrap), 'C11.signature', construct(mf),
+            'decorators are unwrapped completely (to the innermost __wrapped__) before the signature is read',
+            'the callable is no longer unwrapped completely before its signature is read: for a function that already carries a '
+            'functools.wraps pass-through decorator (*args, **kwargs) every parameter name is accepted', mf.loc(), instance='full-unwrap')
